@@ -167,7 +167,11 @@ def gen_cases(ctx: Ctx):
     # unrestricted runs in mixed-size batches, the smaller (padded) molecule in either half of the batch; closed-shell singlets and radicals
     ucases = [(["ch2o", "h2o"], 1), (["h2o", "ch2o"], 0), (["ch4", "oh"], 1), (["c2h4", "no", "h2o"], 2), (["c2h4", "no", "h2o"], 1)]
     for i, (names, tgt) in enumerate(ucases[: (5 if ctx.thorough else 3)]):
-        cases.append(("alone_vs_batch", {"names": names, "target": tgt, "method": methods[i % 3], "converger": [[1], [0, 0.3]][i % 2], "uhf": True, "tol": 1e-8, "eps": 1e-10}))
+        cases.append(("alone_vs_batch", {"names": names, "target": tgt, "method": methods[i % 3], "converger": [[1], [0, 0.3]][i % 2], "uhf": True, "tol": 1e-8, "eps": 1e-10,
+                                         "analytical": [None, [True], [True, "numerical"]][(i + ctx.seed) % 3]}))
+    # unrestricted x analytical / semi-numerical forces x batches of radicals with different spin densities
+    cases.append(("alone_vs_batch", {"names": [["oh", "no"], ["no", "oh", "oh"]][ctx.seed % 2], "target": 1, "method": methods[ctx.seed % 3], "converger": [1], "uhf": True, "tol": 1e-7, "eps": 1e-10,
+                                     "analytical": [[True], [True, "numerical"]][ctx.seed % 2]}))
     cases.append(("shared_driver_positions", {"method": methods[ctx.seed % 3], "seq": [["co+n2", "n2+co"], ["n2+co", "co+n2"], ["ch4+co", "co+ch4"]][ctx.seed % 3], "converger": [[1], [0, 0.3]][ctx.seed % 2]}))
     # excited states: homogeneous batch (same species, different coords handled via names repeated) and mixed
     cases.append(("alone_vs_batch", {"names": ["ch2o", "ch2o"], "target": 1, "method": "AM1", "converger": [1], "excited": {"n_states": 3, "method": "cis"}, "tol": 1e-8}))
